@@ -505,7 +505,7 @@ def validate_any(b):
     return None, [], ["unknown container magic %r" % bytes(b[:4])]
 
 
-def foreign_variant(b, longloca=False, bit11=False, order_seed=None, glyph_pad4=False):
+def foreign_variant(b, longloca=False, bit11=False, order_seed=None, glyph_pad4=False, loosebbox=None):
     """The same font as another conforming writer could have stored it: long 'loca' offsets although
     the glyph data is small (the reference WOFF2 decoder does this), head.flags bit 11 set (any font
     that went through WOFF2), table data laid out in another physical order. Plain single sfnt with
@@ -527,6 +527,30 @@ def foreign_variant(b, longloca=False, bit11=False, order_seed=None, glyph_pad4=
                 if all(x <= y for x, y in zip(offs, offs[1:])) and 2 * offs[-1] <= len(tabs["glyf"]):
                     tabs["loca"] = struct.pack(">%dL" % (ng + 1), *[2 * o for o in offs])
                     head[50:52] = struct.pack(">h", 1)
+                    changed = True
+        if loosebbox is not None and all(t in tabs for t in ("loca", "glyf", "maxp")) and i16(head, 50) == 0 and len(tabs["maxp"]) >= 6:
+            # roomy (valid, not tight) bounding boxes in the headers of some simple glyphs, as hand-edited or
+            # hinted-for-rasteriser fonts have; head's font bbox is widened to keep containing them
+            import random
+
+            rr = random.Random(loosebbox)
+            ng = u16(tabs["maxp"], 4)
+            loca = tabs["loca"]
+            if len(loca) == 2 * (ng + 1):
+                offs = [2 * o for o in struct.unpack(">%dH" % (ng + 1), loca)]
+                glyf = bytearray(tabs["glyf"])
+                n_done = 0
+                for gi in range(ng):
+                    a, e = offs[gi], offs[gi + 1]
+                    if e - a >= 10 and e <= len(glyf) and i16(glyf, a) > 0 and rr.random() < 0.4:
+                        x0, y0, x1, y1 = struct.unpack_from(">4h", glyf, a + 2)
+                        if x0 > -32000 and y1 < 32000:
+                            struct.pack_into(">4h", glyf, a + 2, x0 - rr.randint(1, 9), y0, x1, y1 + rr.randint(1, 9))
+                            n_done += 1
+                if n_done:
+                    tabs["glyf"] = bytes(glyf)
+                    fx0, fy0, fx1, fy1 = struct.unpack_from(">4h", head, 36)
+                    struct.pack_into(">4h", head, 36, max(-32768, fx0 - 9), fy0, fx1, min(32767, fy1 + 9))
                     changed = True
         if bit11 and not u16(head, 16) & 0x0800:
             head[16:18] = struct.pack(">H", u16(head, 16) | 0x0800)
